@@ -75,6 +75,18 @@ Proof.
 Qed.
 End P.
 
+(* n steps: the predicted keys are the inserted keys, with no capacity hypothesis (Reserve.nki_predicts needed one) *)
+Lemma predict_inserts {V} (f : key -> V) n : forall (m : smap V) ks i, SmInv m -> predict n (next_key_iter m) m = Some (ks, i) ->
+  exists m', inserts n f m = Some (ks, m') /\ SmInv m' /\ next_key_iter m' = i.
+Proof.
+  induction n as [|n IH]; intros m ks i Hi Hp.
+  - cbn [predict] in Hp. inversion Hp; subst. exists m. cbn [inserts]. auto.
+  - assert (Hks : exists k1 ks', ks = k1 :: ks').
+    { cbn [predict] in Hp. destruct (nki_next _ _) as [[[k1|] idx']|]; try discriminate. destruct (predict n idx' _) as [[ks' i']|]; [|discriminate]. inversion Hp. eauto. }
+    destruct Hks as (k1 & ks' & ->). destruct (predict_insert f m k1 ks' i n Hi Hp) as (m1 & E1 & P1).
+    destruct (IH m1 ks' i (insert_inv _ _ _ _ Hi E1) P1) as (m' & E2 & Hi' & Hn). exists m'. cbn [inserts]. rewrite E1, E2. auto.
+Qed.
+
 (* ---------- created: the id is live, or dead for good ---------- *)
 Definition created (m : smap eloc) (k : key) : Prop := sm_get k m <> None \/ Dead m k.
 
@@ -597,6 +609,46 @@ Theorem reachable_world_spawn_id_is_created beh fuel p ops id w' : NoTakeSpawn b
   op_spawn beh w = ROk id w' -> w_rcnt w' = 0 -> sm_get id (w_ents w') <> None \/ Dead (w_ents w') id.
 Proof.
   intros Hnt Hne w Hl Hs Hz. exact (proj2 (world_spawn_id_is_created beh w id w' (reachable_RO beh fuel p ops Hnt Hne Hl) Hs) Hz).
+Qed.
+
+(* ReserveW.reserved_ids_are_created without its capacity hypothesis: on a consistent world whose cursor is as the invariant
+   says, spawn_all creates exactly the ids that were handed out, as component-less entities, leaves every existing entity
+   alone, and leaves no reservation pending *)
+Theorem reserved_ids_are_created_nocap w ks : WInv w -> reserved_ids w ks ->
+  exists w', spawn_all w = ROk tt w' /\ WInv w' /\
+             (forall k, In k ks -> sm_get k (w_ents w') <> None /\ forall c, abs w' k c = None) /\
+             ext_by_spawn w w' /\ w_rcnt w' = 0 /\ reserved_ids w' [].
+Proof.
+  intros HW Hr. pose proof HW as ((Hsm & _) & _). unfold reserved_ids in Hr.
+  destruct (predict_inserts (fun _ : key => ((0, 0) : eloc)) _ (w_ents w) ks (w_rcur w) Hsm Hr) as (m' & Hi & _ & _).
+  destruct (spawn_all_n_inserts _ w ks m' HW Hi) as (w1 & Es & HW1 & Hs1 & Hks & Hext). unfold spawn_all. rewrite Es. cbn [rbind].
+  eexists. split; [reflexivity|]. split; [eapply WInv_ext; [| | |exact HW1]; reflexivity|]. split; [exact Hks|]. split; [eapply ext_by_spawn_ext; [| | |exact Hext]; reflexivity|].
+  split; [reflexivity|]. unfold reserved_ids. reflexivity.
+Qed.
+
+(* Quiet.quiet_reservation_is_kept without its capacity hypothesis: an id promised in a quiet world is the id of no
+   existing entity and of the component-less entity the next materialisation creates, which cannot fail *)
+Theorem quiet_reservation_is_kept_nocap w : WInv w -> Quiet w ->
+  match reserve w with
+  | ROk id w1 => exists w', spawn_all w1 = ROk tt w' /\ WInv w' /\ sm_get id (w_ents w) = None /\
+                            sm_get id (w_ents w') <> None /\ (forall c, abs w' id c = None) /\ ext_by_spawn w1 w' /\ Quiet w'
+  | RFail _ w1 => w1 = w
+  end.
+Proof.
+  intros HW HQ. pose proof (reserve_ReserveInv w [] (Quiet_ReserveInv w HQ)) as Hr. cbn [app] in Hr.
+  assert (Hres : forall id w1, reserve w = ROk id w1 -> w_ents w1 = w_ents w /\ w_rcnt w1 = w_rcnt w + 1 /\ WInv w1).
+  { unfold reserve. intros id w1. destruct (nki_next (w_rcur w) (w_ents w)) as [[[k|] i']|]; intros H; inversion H; subst. split; [reflexivity|split; [reflexivity|exact HW]]. }
+  destruct (reserve w) as [id w1|f w1] eqn:Er; [|exact Hr].
+  destruct (Hres id w1 eq_refl) as (He & Hc & HW1). destruct HQ as [Hz Hcur].
+  destruct (reserved_ids_are_created_nocap w1 [id] HW1 Hr) as (w' & Es & HW' & Hks & Hext & Hc0 & Hr0).
+  exists w'. split; [exact Es|]. split; [exact HW'|]. destruct (Hks id (or_introl eq_refl)) as [A B].
+  assert (Hfresh : sm_get id (w_ents w) = None).
+  { pose proof HW as ((Hsm & _) & _). unfold reserved_ids in Hr. rewrite He, Hc, Hz in Hr. cbn [N.to_nat Pos.to_nat Pos.iter_op Nat.add] in Hr.
+    change (N.to_nat (0 + 1)) with 1%nat in Hr.
+    destruct (predict_insert (fun _ : key => ((0, 0) : eloc)) (w_ents w) id [] (w_rcur w1) 0 Hsm Hr) as (m1 & Ei & _).
+    exact (insert_get_fresh _ _ _ _ Hsm Ei). }
+  split; [exact Hfresh|]. split; [exact A|]. split; [exact B|]. split; [exact Hext|].
+  apply ReserveInv_zero; [exists []; exact Hr0|exact Hc0].
 Qed.
 
 (* not vacuous, and "from the moment its Spawn event has been delivered", not before: on a map with one live
